@@ -76,6 +76,13 @@ def random_history(rng, events=None, recipes=None):
     import valida.datapath as dp
 
     doc = gen.document(rng, depth=3, strish=0.8)
+    slash_key = None
+    if isinstance(doc, dict) and rng.random() < 0.15:
+        # a key that contains the path-string delimiter (a MIME type, a file name): as a root it is ONE key
+        slash_key = rng.choice(["text/plain", "a/b", "/", "a/", "x/y/z"])
+        doc = dict(doc)
+        doc[slash_key] = gen.value(rng, 2)
+        gen._note_document(doc)
     nS = rng.choice([2, 3, 4])
     recs = [[ruledrv.rule_recipe(rng, doc, cast_p=0.2, maxlen=2) for _ in range(rng.choice([0, 1, 2]))] for _ in range(nS)]
     schemas = [valida.Schema([ruledrv.build_rule(r) for r in rs]) for rs in recs]
@@ -83,7 +90,11 @@ def random_history(rng, events=None, recipes=None):
     for step in range(rng.choice([1, 2, 3, 4, 6, 8])):
         s, t = rng.sample(range(nS), 2)
         root = gen.path_recipe(rng, doc, maxlen=2, p_prim=0.8)
+        if slash_key is not None and rng.random() < 0.6:
+            root = [("prim", slash_key)]
         R = dp.DataPath(*[gen.build_part(p) for p in root])
+        if len(root) == 1 and isinstance(root[0], tuple) and isinstance(root[0][1], str) and rng.random() < 0.5:
+            R = root[0][1]               # the root given as a plain key (`key / path` is a path)
         t_rules = list(schemas[t].rules)
         t_snap = [graph_snap(r) for r in t_rules]
         with watch(objs=schemas + [R], docs=[doc]) as w:
